@@ -498,6 +498,37 @@ func (s *Sim) quiescent(op Op) {
 	s.shim.mu.Unlock()
 	s.pre = s.post
 	s.post = TakeSnap(s.sc.Scheduler, s.part)
+	if op.Kind == "batch" {
+		// a release that travelled next to the scheduling cycle which linked the same ask to a placeholder as its
+		// replacement: the known "ask released during swap" history, decided inside this step
+		s.shim.mu.Lock()
+		for _, sub := range op.Sub {
+			if sub.Kind != "release" || sub.AppID == "" {
+				continue
+			}
+			m := s.shim.Allocs[sub.Key]
+			a := s.post.Apps[sub.AppID]
+			if m == nil || a == nil || m.Placeholder {
+				continue
+			}
+			linked := false
+			if ask := a.Asks[sub.Key]; ask != nil && ask.ReleaseKey != "" {
+				linked = true
+			}
+			for _, al := range a.Allocs {
+				// (the released ask itself is gone from the application's requests, the placeholder still points at it)
+				if al.Placeholder && al.ReleaseKey == sub.Key {
+					linked = true
+				}
+			}
+			if linked && !m.ReleasedDuringSwap {
+				m.ReleasedDuringSwap = true
+				s.shim.taint(m.App, "ask-released-during-swap")
+				s.probe("ask_released_during_swap")
+			}
+		}
+		s.shim.mu.Unlock()
+	}
 	if s.cfg.Freeze {
 		s.shim.mu.Lock()
 		s.freeze("step")
